@@ -311,7 +311,24 @@ def check(P: Project, R: Report) -> None:
             t = re.sub(rf"(?<![\w.]){re.escape(nm_)}(?![\w])", full_, t)
         return t
 
-    fut_cancel = [n.lineno for n in walk_local(cleanup.node) if isinstance(n, (ast.For,)) and "_pending_requests" in _expand(ast.unparse(n.iter)) and any(isinstance(c, ast.Call) and call_name(c).endswith(".cancel") for c in walk_local(n))]
+    # (positions are taken in the cleanup routine's own statement order, not from line numbers: statements of a helper
+    # read at its call site keep the helper's lines)
+    _order = {}
+
+    def _dfs(n):
+        _order[id(n)] = len(_order)
+        for c_ in ast.iter_child_nodes(n):
+            if not isinstance(c_, (ast.FunctionDef, ast.AsyncFunctionDef, ast.Lambda)):
+                _dfs(c_)
+
+    _dfs(cleanup.node)
+
+    class _Pos:
+        def __init__(self, n):
+            self.lineno = _order.get(id(n), 0)
+            self.line = getattr(n, "lineno", 0)
+
+    fut_cancel = [_Pos(n).lineno for n in walk_local(cleanup.node) if isinstance(n, (ast.For,)) and "_pending_requests" in _expand(ast.unparse(n.iter)) and any(isinstance(c, ast.Call) and call_name(c).endswith(".cancel") for c in walk_local(n))]
     def _task_holder(name: str) -> bool:
         """is `name` a task taken from a loop over the task attributes (directly, or by getattr(self, <attribute name>))?"""
         for l in walk_local(cleanup.node):
@@ -323,9 +340,9 @@ def check(P: Project, R: Report) -> None:
                         return True
         return False
 
-    joins = [n.lineno for n in walk_local(cleanup.node) if isinstance(n, ast.Await) and ("_task" in _expand(ast.unparse(n.value)) or (isinstance(n.value, ast.Name) and _task_holder(n.value.id)))]
+    joins = [_Pos(n).lineno for n in walk_local(cleanup.node) if isinstance(n, ast.Await) and ("_task" in _expand(ast.unparse(n.value)) or (isinstance(n.value, ast.Name) and _task_holder(n.value.id)))]
     R.ob("R4", "pending request futures are cancelled before the tasks are joined", bool(fut_cancel) and bool(joins) and min(fut_cancel) < min(joins), cleanup.where,
-         f"futures cancelled at line {fut_cancel[:1]}, first task join at line {joins[:1]}: a sender blocked in the 202 wait absorbs its cancellation (it is the future's), so joining it before cancelling the futures blocks the shutdown forever")
+         f"in the cleanup routine's statement order the futures are cancelled at position {fut_cancel[:1]}, the first task is joined at position {joins[:1]}: a sender blocked in the 202 wait absorbs its cancellation (it is the future's), so joining it before cancelling the futures blocks the shutdown forever")
     ax = meths["__aexit__"]
     first = [s for s in ax.node.body if not (isinstance(s, ast.Expr) and isinstance(s.value, ast.Constant))]
     R.ob("R4", "__aexit__ calls the cleanup routine unconditionally", bool(first) and isinstance(first[0], ast.Expr) and isinstance(first[0].value, ast.Await) and call_name(first[0].value.value) == f"self.{cleanup.name}", ax.where, "")
@@ -367,6 +384,12 @@ def check(P: Project, R: Report) -> None:
         handed = [c for c in walk_local(loop) if isinstance(c, ast.Call) and cv and any(isinstance(a, ast.Name) and a.id == cv for a in c.args) and not is_benign_call(c)]
         if handed:
             raise AnalysisError(f"the event-stream reader hands each chunk to `{ast.unparse(handed[0].func)}` — chunk accumulation is written in a shape this rule cannot read (expected `buffer += chunk` in the read loop)")
+        # … or joined with what is carried over from the previous read in another spelling (`rest + chunk` handed to a
+        # splitter, `"".join((rest, chunk))`): accumulation is there, only not in the shape the rules below read
+        joined = [b for b in walk_local(loop) if cv and ((isinstance(b, ast.BinOp) and isinstance(b.op, ast.Add) and any(isinstance(x, ast.Name) and x.id == cv for x in (b.left, b.right)) and any(isinstance(x, ast.Name) and x.id != cv for x in (b.left, b.right)))
+                                                       or (isinstance(b, ast.JoinedStr) and any(isinstance(x, ast.Name) and x.id == cv for x in ast.walk(b)) and len([x for x in ast.walk(b) if isinstance(x, ast.Name)]) >= 2))]
+        if joined:
+            raise AnalysisError(f"the event-stream reader joins each chunk with the carried-over text as `{ast.unparse(joined[0])[:50]}` — a shape this rule cannot read (expected `buffer += chunk` in the read loop)")
     R.ob("R6", "the reader accumulates chunks into a buffer", bool(acc), pf.where, "no `buffer += chunk`: a line cut by a chunk boundary is lost")
     R.need(acc, "anchor: the reader does not accumulate a buffer")
     buf = acc[0].target.id
